@@ -1,7 +1,6 @@
 package cose
 
 import (
-	"bytes"
 	"errors"
 	"fmt"
 	"math/big"
@@ -806,32 +805,109 @@ func validateHeaderLabelCBOR(data []byte) error {
 	if err := decMode.Unmarshal(data, &header); err != nil {
 		return err
 	}
-	return ensureUntaggedHeaderLabels(data)
+	return ensureUntaggedHeaderLabels(data, typeCheckedHeaderLabel)
 }
 
-// ensureUntaggedHeaderLabels refuses a header (or COSE_Key) map with a label
-// wrapped in the self-described CBOR tag (55799). The CBOR decoder strips that tag before it
-// hands a map key to headerLabelValidator, so such a label would otherwise be
-// taken for the int / tstr it encloses. data must be a well-formed header map.
-func ensureUntaggedHeaderLabels(data []byte) error {
-	if len(data) == 0 || data[0]>>5 != 5 { // major type 5: map
+// ensureUntaggedHeaderLabels refuses a header (or COSE_Key) map in which the
+// self-described CBOR tag (55799) stands where it would change how the map is
+// read. The CBOR decoder strips that tag silently wherever it meets it: a
+// label wrapped in it would be taken for the int / tstr it encloses, and alg,
+// crit, kid and every other parameter whose type is checked on the decoded
+// form would pass with a value that is not of that type on the wire, while the
+// bytes that are signed keep the tag. So the tag is refused in every label,
+// and at any depth in the value of a label for which checked reports true
+// (every value when checked is nil). Other tags on labels are refused by
+// headerLabelValidator; other tags on values are data.
+// data must be a well-formed definite-length item.
+func ensureUntaggedHeaderLabels(data []byte, checked func(label uint64) bool) error {
+	if len(data) == 0 || data[0]>>5 != 5 {
+		if _, found := scanSelfDescribedTag(data, 0); found {
+			return errors.New("cbor: header: self-described CBOR tag isn't allowed")
+		}
 		return nil
 	}
-	head := 1
-	if ai := data[0] & 0x1f; ai >= 24 {
-		head += 1 << (ai - 24)
-	}
-	dec := decMode.NewDecoder(bytes.NewReader(data[head:]))
-	for off := head; off < len(data); off = head + dec.NumBytesRead() {
-		if data[off]>>5 == 6 { // major type 6: tag
-			return errors.New("cbor: header label: require int / tstr type")
+	n, off := headArgument(data, 0)
+	for ; n > 0 && off < len(data); n-- {
+		isUint := data[off]>>5 == 0
+		label, _ := headArgument(data, off)
+		next, found := scanSelfDescribedTag(data, off)
+		if found {
+			return errors.New("cbor: header label: self-described CBOR tag isn't allowed")
 		}
-		if err := dec.Skip(); err != nil { // label
-			return err
-		}
-		if err := dec.Skip(); err != nil { // value
-			return err
+		off, found = scanSelfDescribedTag(data, next)
+		if found && (checked == nil || isUint && checked(label)) {
+			return errors.New("cbor: header parameter: self-described CBOR tag isn't allowed")
 		}
 	}
 	return nil
+}
+
+// typeCheckedHeaderLabel reports whether the value of the header parameter
+// with the given non-negative label is validated by this package.
+func typeCheckedHeaderLabel(label uint64) bool {
+	switch int64(label) {
+	case HeaderLabelAlgorithm, HeaderLabelCritical, HeaderLabelContentType,
+		HeaderLabelKeyID, HeaderLabelIV, HeaderLabelPartialIV,
+		HeaderLabelCounterSignature, HeaderLabelCounterSignature0,
+		HeaderLabelCounterSignatureV2, HeaderLabelCounterSignature0V2,
+		HeaderLabelType, HeaderLabelPayloadHashAlgorithm,
+		HeaderLabelPayloadPreimageContentType, HeaderLabelPayloadLocation:
+		return true
+	}
+	return false
+}
+
+// headArgument returns the argument of the CBOR head at data[off:] and the
+// offset just past the head.
+func headArgument(data []byte, off int) (n uint64, next int) {
+	if off >= len(data) {
+		return 0, len(data)
+	}
+	ai := data[off] & 0x1f
+	next = off + 1
+	switch {
+	case ai < 24:
+		return uint64(ai), next
+	case ai <= 27:
+		w := 1 << (ai - 24)
+		if next+w > len(data) {
+			return 0, len(data)
+		}
+		for _, b := range data[next : next+w] {
+			n = n<<8 | uint64(b)
+		}
+		return n, next + w
+	}
+	return 0, len(data)
+}
+
+// scanSelfDescribedTag walks the well-formed definite-length item at data[off:]
+// and reports the offset just past it and whether tag 55799 occurs in it.
+func scanSelfDescribedTag(data []byte, off int) (next int, found bool) {
+	if off >= len(data) {
+		return len(data), false
+	}
+	major := data[off] >> 5
+	n, next := headArgument(data, off)
+	switch major {
+	case 2, 3: // byte string, text string
+		if n > uint64(len(data)-next) {
+			return len(data), false
+		}
+		next += int(n)
+	case 4, 5: // array, map
+		if major == 5 {
+			n *= 2
+		}
+		for ; n > 0 && next < len(data); n-- {
+			var f bool
+			next, f = scanSelfDescribedTag(data, next)
+			found = found || f
+		}
+	case 6: // tag
+		var f bool
+		next, f = scanSelfDescribedTag(data, next)
+		found = f || n == 55799
+	}
+	return next, found
 }
